@@ -233,8 +233,8 @@ fn witness(asm: &Asm, text: Option<&str>) -> J {
 }
 
 pub fn run(ctx: &Ctx) -> Report {
-    let rounds = ctx.size(90, 900) as usize;
-    let random_programs = ctx.size(500_000, 20_000_000) as usize;
+    let rounds = ctx.size(200, 900) as usize;
+    let random_programs = ctx.size(1_500_000, 20_000_000) as usize;
     let batches = (random_programs + 199) / 200;
     par_items(ctx.threads, rounds + batches, ctx.seed, move |i, seed, rep| {
         let mut rng = Rng::new(seed);
